@@ -25,6 +25,7 @@ import (
 //	trace    block fields trace_action_from/to/value -> plan: blocks + traces; one row per trace action
 //	created  Created(address indexed addr) selected, no data -> logs only (hashes = false);
 //	         with Hdr: plus block_time (hashes = true).  Target of filter references.
+//	tags     Tags(string[] tags) selected -> logs only; one row per array element (abi_idx), elements may be empty strings
 //	dep      like log/lognh, but input "from" carries filter_ref {integration: Ref, column: addr}
 //	depbd    like log/lognh, but the reference sits on block field log_addr (column addr of Ref)
 type IGSpec struct {
@@ -128,6 +129,14 @@ func (ig *IGSpec) jsonConfig() map[string]any {
 		cols = append(cols, jcol{"addr", "bytea"})
 		event = map[string]any{"name": "Created", "type": "event", "anonymous": false, "inputs": []any{
 			input(true, "addr", "address", "addr", nil),
+		}}
+		if ig.Hdr {
+			addBD("block_time", "numeric", nil)
+		}
+	case "tags":
+		cols = append(cols, jcol{"tag", "text"})
+		event = map[string]any{"name": "Tags", "type": "event", "anonymous": false, "inputs": []any{
+			input(false, "tags", "string[]", "tag", nil),
 		}}
 		if ig.Hdr {
 			addBD("block_time", "numeric", nil)
@@ -242,6 +251,8 @@ func (ig *IGSpec) matchesNode(l *Log) bool {
 		sig = SigTransfer
 	case "created":
 		sig = SigCreated
+	case "tags":
+		sig = SigTags
 	default:
 		return false
 	}
@@ -315,6 +326,19 @@ func (ig *IGSpec) Project(c *Chain, b *Block, src string) []RowVals {
 					r["block_time"] = u64(b.Time)
 				}
 				out = append(out, r)
+			}
+		case "tags":
+			for _, l := range tx.Logs {
+				if l.Kind != "tags" {
+					continue
+				}
+				for i, tag := range l.Tags {
+					r := stamp(RowVals{"tx_idx": u64(tx.Idx), "log_idx": u64(l.Idx), "abi_idx": u64(uint64(i)), "tag": tag})
+					if ig.Hdr {
+						r["block_time"] = u64(b.Time)
+					}
+					out = append(out, r)
+				}
 			}
 		case "tx":
 			if ig.ToFlt != nil && !bytes.Contains(tx.To, ig.ToFlt) {
